@@ -98,6 +98,10 @@ func (e *Exec) intrinsic(fn *ssa.Function, name string, args []Value) (Value, bo
 		return e.fUnX("floor", args[0].(Float)), true
 	case "math.Ceil":
 		return e.fUnX("ceil", args[0].(Float)), true
+	case "math.Trunc":
+		return e.fUnX("trunc", args[0].(Float)), true
+	case "math.Round":
+		return e.fUnX("round", args[0].(Float)), true
 	case "math.Sqrt":
 		return e.nmF(fUn("sqrt", args[0].(Float))), true
 	case "math.Abs":
@@ -463,6 +467,11 @@ func (e *Exec) intrinsic(fn *ssa.Function, name string, args []Value) (Value, bo
 
 	// ----- fmt / errors: formatting is not the subject
 	case "fmt.Sprintf", "fmt.Sprint", "fmt.Sprintln":
+		if name == "fmt.Sprintf" {
+			if r, ok := e.sprintfModel(args); ok {
+				return r, true
+			}
+		}
 		e.objCtr++
 		e.stubs["fmt.Sprintf: opaque string"] = true
 		return Str{P: []Piece{{K: pOpaque, Tok: e.objCtr}}}, true
@@ -980,4 +989,72 @@ func (e *Exec) stubCall(cl Closure, args []Value) Value {
 	}
 	e.unsupported("stub %s", cl.Stub)
 	return nil
+}
+
+// sprintfModel renders fmt.Sprintf exactly when the format is a literal that uses only %d, %s, %v (on integers and
+// strings) and %%, without flags or widths; everything else stays an opaque string.
+func (e *Exec) sprintfModel(args []Value) (Str, bool) {
+	f, ok := args[0].(Str)
+	if !ok || !f.isLit() {
+		return Str{}, false
+	}
+	var vals []Value
+	if sl, ok := args[1].(Slice); ok && sl.Arr != nil {
+		arr := sl.Arr.v.(Array)
+		for k := 0; k < sl.Len; k++ {
+			vals = append(vals, arr.E[sl.Off+k])
+		}
+	}
+	format := f.litVal()
+	var out Str
+	ai := 0
+	for i := 0; i < len(format); i++ {
+		c := format[i]
+		if c != '%' {
+			out = strConcat(out, lit(string(c)))
+			continue
+		}
+		if i+1 >= len(format) {
+			return Str{}, false
+		}
+		i++
+		verb := format[i]
+		if verb == '%' {
+			out = strConcat(out, lit("%"))
+			continue
+		}
+		if verb != 'd' && verb != 's' && verb != 'v' {
+			return Str{}, false
+		}
+		if ai >= len(vals) {
+			return Str{}, false
+		}
+		iv, ok := vals[ai].(Iface)
+		ai++
+		if !ok {
+			return Str{}, false
+		}
+		switch v := iv.V.(type) {
+		case Int:
+			if verb == 's' || (!v.Signed && v.W == 64) {
+				return Str{}, false
+			}
+			if b, isB := iv.T.Underlying().(*types.Basic); !isB || b.Info()&types.IsInteger == 0 {
+				return Str{}, false
+			}
+			out = strConcat(out, decStr(iConv(v, 64, true)))
+		case Str:
+			if verb == 'd' {
+				return Str{}, false
+			}
+			out = strConcat(out, v)
+		default:
+			return Str{}, false
+		}
+	}
+	if ai != len(vals) {
+		return Str{}, false
+	}
+	e.stubs["fmt.Sprintf with a literal format of %d/%s/%v verbs on integers and strings: rendered exactly; any other use: opaque string"] = true
+	return out, true
 }
